@@ -277,12 +277,14 @@ def reviewedGuards : List (String × String × String × String × String) := [
   ("src/fqe/wavefunction.py", "Wavefunction.apply_generated_unitary", "assert", "AssertionError", "spec_lim"),
   ("src/fqe/wavefunction.py", "Wavefunction.apply_generated_unitary", "raise", "RuntimeError", "algo == 'chebyshev' && not (algo == 'taylor')"),
   ("src/fqe/wavefunction.py", "Wavefunction.set_wfn", "raise", "ValueError", "strategy == 'from_data' and (not raw_data)"),
+  ("src/fqe/wavefunction.py", "Wavefunction.set_wfn", "raise", "ValueError", "numpy.shape(data) != (sector.lena(), sector.lenb()) && strategy == 'from_data'"),
   ("src/fqe/wavefunction.py", "Wavefunction.set_wfn", "raise", "ValueError", "len(self.sectors()) != 1 && strategy == 'hartree-fock'"),
   ("src/fqe/wavefunction.py", "Wavefunction.transform", "assert", "AssertionError", "external == (upp is not None)"),
   ("src/fqe/wavefunction.py", "Wavefunction.transform", "assert", "AssertionError", "numpy.allclose(rotation, low @ upp)"),
   ("src/fqe/wavefunction.py", "Wavefunction.transform.transpose_matrix", "assert", "AssertionError", "low.shape[1] == ndim and upp.shape == (ndim, ndim)"),
   ("src/fqe/wavefunction.py", "Wavefunction.transform.process_matrix", "assert", "AssertionError", "low.shape[1] == ndim and upp.shape == (ndim, ndim)"),
-  ("src/fqe/wavefunction.py", "Wavefunction.transform", "assert", "AssertionError", "numpy.std(rotation[:norb, norb:]) + numpy.std(rotation[norb:, :norb]) < 1e-08"),
+  ("src/fqe/wavefunction.py", "Wavefunction.transform", "assert", "AssertionError", "numpy.max(numpy.abs(rotation[:norb, norb:])) + numpy.max(numpy.abs(rotation[norb:, :norb])) < 1e-08"),
+  ("src/fqe/wavefunction.py", "Wavefunction.transform", "raise", "ValueError", "not (rotation.shape[0] == norb * 2) && not (rotation.shape[0] == norb)"),
   ("src/fqe/wavefunction.py", "Wavefunction.time_evolve", "assert", "AssertionError", "isinstance(hamil, hamiltonian.Hamiltonian)"),
   ("src/fqe/wavefunction.py", "Wavefunction.time_evolve", "raise", "TypeError", "self._conserve_number && not self._conserve_number or not hamil.conserve_number()"),
   ("src/fqe/wavefunction.py", "Wavefunction.time_evolve", "raise", "TypeError", "hamil.conserve_number() && not self._conserve_number or not hamil.conserve_number()"),
@@ -298,6 +300,7 @@ def reviewedGuards : List (String × String × String × String × String) := [
   ("src/fqe/wavefunction.py", "Wavefunction._evolve_individual_nbody", "raise", "ValueError", "hamil.nterms() > 2"),
   ("src/fqe/wavefunction.py", "Wavefunction._evolve_individual_nbody", "raise", "ValueError", "not check && self._conserve_number"),
   ("src/fqe/wavefunction.py", "Wavefunction._evolve_individual_nbody", "raise", "ValueError", "not check && self._conserve_number"),
+  ("src/fqe/wavefunction.py", "Wavefunction._evolve_individual_nbody", "raise", "ValueError", "numpy.abs(numpy.imag(coeff0)) > 1e-08 && not (hamil.nterms() == 2)"),
   ("src/fqe/wavefunction.py", "Wavefunction._evolve_individual_nbody", "raise", "ValueError", "oper[0] >= self._norb"),
   ("src/fqe/wavefunction.py", "Wavefunction._evolve_individual_nbody", "raise", "ValueError", "oper[0] >= self._norb"),
   ("src/fqe/wavefunction.py", "Wavefunction._evolve_individual_nbody", "raise", "ValueError", "not numpy.abs(coeff0 - numpy.conj(coeff1) * parity) < 1e-08 && hamil.nterms() == 2"),
